@@ -34,38 +34,51 @@ class Val:
 
 
 def gen_history(rng, nh=3, maxlen=25, crash=False, big=False):
-    """Disciplined random history (as python tuples)."""
+    """Disciplined random history (as python tuples).  Mostly-valid stream: ops go to open handles with
+    probability 0.85 (reads to any open handle, puts to the writer), the rest exercise the error paths
+    (ops on closed handles, puts through readers)."""
     ops = []
     state = ["closed"] * nh          # closed / r / a   (of the handle object; None object = closed)
     n = rng.randint(1, maxlen)
-    for _ in range(n):
-        i = rng.randrange(nh)
-        kind = rng.choice(["open", "open", "close", "put", "put", "put", "get", "get", "keys"]
-                          + (["crash"] if crash else []))
-        if kind == "open":
+    tried = []                       # keys some put was attempted with (reads prefer them)
+    while len(ops) < n:
+        open_hs = [j for j in range(nh) if state[j] != "closed"]
+        writer = [j for j in range(nh) if state[j] == "a"]
+        r = rng.random()
+        if crash and r < 0.06:
+            ops.append(("crash", rng.random()))     # fraction of the uncommitted tail that survives
+            state = ["closed"] * nh
+            continue
+        if not open_hs or r < 0.25:
+            i = rng.randrange(nh)
             w = rng.random() < 0.6
             others_open = [j for j in range(nh) if j != i and state[j] != "closed"]
             if w and others_open:
+                i = others_open[0]
+                ops.append(("close", i)); state[i] = "closed"
                 continue
             if (not w) and any(state[j] == "a" for j in range(nh) if j != i):
                 continue
             ops.append(("open", i, "a" if w else "r"))
             if state[i] == "closed":
                 state[i] = "a" if w else "r"
-        elif kind == "close":
-            ops.append(("close", i))
-            state[i] = "closed"
-        elif kind == "put":
-            k = rng.choice(KEYS)
-            l = rng.choice(VLENS + ([70000] if big and rng.random() < 0.15 else []))
+            continue
+        if r < 0.40:
+            i = rng.choice(open_hs) if rng.random() < 0.85 else rng.randrange(nh)
+            ops.append(("close", i)); state[i] = "closed"
+            continue
+        kind = rng.choice(["put", "put", "put", "get", "get", "keys"])
+        if kind == "put":
+            i = writer[0] if writer and rng.random() < 0.85 else rng.randrange(nh)
+            fresh = [x for x in KEYS if x not in tried]
+            k = rng.choice(fresh) if fresh and rng.random() < 0.75 else rng.choice(KEYS)
+            tried.append(k)
+            l = rng.choice(VLENS + ([70000] if big and rng.random() < 0.1 else []))
             ops.append(("put", i, k, Val(rng.randrange(256) if rng.random() < 0.8 else -1, l)))
-        elif kind == "get":
-            ops.append(("get", i, rng.choice(KEYS)))
-        elif kind == "keys":
-            ops.append(("keys", i))
         else:
-            ops.append(("crash", rng.random()))     # fraction of the uncommitted tail that survives
-            state = ["closed"] * nh
+            i = rng.choice(open_hs) if rng.random() < 0.85 else rng.randrange(nh)
+            gk = rng.choice(tried) if tried and rng.random() < 0.75 else rng.choice(KEYS)
+            ops.append((kind, i, gk) if kind == "get" else ("keys", i))
     return ops
 
 
